@@ -1,6 +1,7 @@
 //! unit: u15b
 //! properties: C15
 //! note: read-buffer framing of PeerManager::do_read_event after the handshake: the buffer is sized for the announced body plus its 16-byte tag for every u16 length, and reset to the 18-byte header afterwards
+//! trusted: R15 (deep slice): do_attempt_write_data: the statement that advances the gossip-backfill cursor past the channel just sent, verbatim as a function of the announcement (InitSyncTracker skeleton); the short_channel_id is NOT bounded by a precondition: a graph without chain access accepts any id a peer announces (finding F5)
 //! trusted: R15 (deep slices): do_handle_message_holding_peer_lock: the test that refuses a non-Init message while no Init has been accepted and the test that refuses a second Init, verbatim as functions of the peer (skeleton {their_features}); the feature / chain compatibility tests and the handlers' peer_connected notifications are not sliced (handlers are reached through shared references to objects with interior state)
 //! trusted: R15 (statement slicing, deep form): do_read_event is ~600 lines under three locks with function-local macros; the unit extracts, on every run, (a) the statements between `let msg_len = ..decrypt_length_header..` and `peer.pending_read_is_header = false;` and (b) the "Reset read buffer" statements of the body branch, verbatim, as two functions of the two Peer fields they touch; everything else of do_read_event is dropped and not claimed
 //! trusted: env: Peer skeleton {pending_read_buffer, pending_read_is_header}; PeerHandleError empty struct (as in the source)
@@ -172,6 +173,23 @@ pub struct ReadPeer { pub pending_read_buffer: Vec<u8>, pub pending_read_buffer_
     read_pos += data_to_copy;
 //@with
     read_pos += 0;
+//@end
+// ---- gossip backfill: the cursor moves past the channel just sent for EVERY short_channel_id a peer can have put into the graph ----
+pub struct UnsignedChannelAnnouncement { pub short_channel_id: u64 }
+pub struct ChannelAnnouncement { pub contents: UnsignedChannelAnnouncement }
+pub enum InitSyncTracker { NoSyncRequested, ChannelsSyncing(u64), NodesSyncing(u64) }
+pub struct SyncPeer { pub sync_status: InitSyncTracker }
+//@extract lightning/src/ln/peer_handler.rs :: impl PeerManager :: fn do_attempt_write_data
+//@slice R15
+    { peer.sync_status = InitSyncTracker::ChannelsSyncing($next:any); let msg = Message::ChannelAnnouncement(announce);
+//@with
+    fn cursor_after_sending_a_channel(peer: &mut SyncPeer, announce: &ChannelAnnouncement) { peer.sync_status = InitSyncTracker::ChannelsSyncing($next); }
+//@ensures P C15 after-a-channel-is-sent-to-a-syncing-peer-the-cursor-is-past-it-or-at-the-end-marker-for-every-short-channel-id-without-overflow
+    final(peer).sync_status == InitSyncTracker::ChannelsSyncing(if announce.contents.short_channel_id == u64::MAX { u64::MAX } else { (announce.contents.short_channel_id + 1) as u64 }),
+//@mutant cursor_addition_unchecked
+    announce.contents.short_channel_id.saturating_add(1),
+//@with
+    announce.contents.short_channel_id + 1,
 //@end
 // ---- Init before anything else, and only once (do_handle_message_holding_peer_lock) -------------------------------------------
 pub struct InitFeatures {}
